@@ -298,6 +298,10 @@ func c14(r *core.Report) {
 	ruleCommit(r, h, "C14-COMMIT")
 	r.Rule("C14-DONE-AFTER-CALLBACK", "hub Receive/ServeAsk signal completion only after the callback returned (the buffer is the callback's until then)", 9)
 	ruleDoneAfterCallback(r, h, "C14-DONE-AFTER-CALLBACK")
+	// the callback's side of the same ownership rule (shared with C01-BORROW-RECV): whoever is handed a
+	// message keeps no alias of its payload past the call and does not write it
+	r.Rule("C14-BORROW-RECV", "no alias of a received message's payload is written or outlives the function it was lent to", 9)
+	ruleBorrowRecv(r, h, newBorrowEngine(p, h), "C14-BORROW-RECV")
 
 	// ---- C14-FREELIST
 	r.Rule("C14-FREELIST", "queue buffers: back to the freelist only after the callback, zeroed; payload rebuilt from length 0 before queueing", 3)
